@@ -38,6 +38,30 @@ def replay_pairs(recs):
         # mirror check: the harness' own evaluator of the spec operator M agrees with TLC
         if tuple(map(tuple, r["Mp"])) != M_int(p) or r["Np"] != norm2(p):
             t.fail("C01|harness-mirror|M_int", {"p": p})
+        # 0. one live array, results held by the caller across an in-place product: the matrices the array gave BEFORE (still in the caller's
+        # hands) and the ones it gives AFTER rotate_by(p, inplace=True) are related by R(p q_i) = R(p) R(q_i); same for the conjugates
+        if (sum(abs(int(c)) for c in p + v) % 4) == 0:
+            from ahrs.common.quaternion import QuaternionArray as _QA
+
+            def live():
+                arr = _QA(np.array([fv, g_unit((2, -1, 3, 1)), -fv]))
+                R0 = arr.to_DCM()
+                c0 = arr.conjugate()
+                arr.rotate_by(fp.copy(), inplace=True)
+                return np.asarray(R0), np.asarray(arr.to_DCM()), np.asarray(c0), np.asarray(arr.conjugate())
+            t.calls += 1
+            o = core.outcome(live)
+            if o[0] != "ok":
+                t.fail("C01|QuaternionArray[live].rotate_by(inplace)|raises-%s" % o[1], {"p": p, "v": v, "err": o[2]})
+            else:
+                R0, R1, c0, c1 = o[1]
+                if not all(maxdiff(R1[i], Rp @ R0[i]) <= 1e-12 for i in range(3)):
+                    t.fail("C01|QuaternionArray[live].to_DCM|matrices-before-and-after-an-in-place-product-are-not-related-by-R(p)",
+                           {"p": p, "v": v, "before": R0, "after": R1})
+                cp = fp * np.array([1.0, -1.0, -1.0, -1.0])
+                if not all(maxdiff(c1[i], A.mul_route("q_prod", c0[i], cp)) <= 1e-12 for i in range(3)):
+                    t.fail("C01|QuaternionArray[live].conjugate|conjugates-before-and-after-an-in-place-product-are-not-related-by-conj(p)",
+                           {"p": p, "v": v, "before": c0, "after": c1})
         # 1. every conversion route gives the exact matrix; proper rotation
         mats = {}
         for route in A.DCM_ROUTES:
